@@ -735,7 +735,15 @@ impl<'a> Eval<'a> {
                 for (i, (f, d)) in formals.iter().enumerate() {
                     let a = args.and_then(|a| a.get(i));
                     let v = match a {
-                        Some(Some(x)) if !x.trim().is_empty() => x.trim().to_string(),
+                        // (an actual that spans lines -- a line comment inside it -- carries the file's line endings
+                        // into a stringified result)
+                        Some(Some(x)) if !x.trim().is_empty() => {
+                            if self.rendered.crlf && x.contains('\n') && !x.contains('\r') {
+                                x.trim().replace('\n', "\r\n")
+                            } else {
+                                x.trim().to_string()
+                            }
+                        }
                         Some(_) => d.clone().unwrap_or_default(),
                         None => match d {
                             Some(d) => d.clone(),
